@@ -60,7 +60,7 @@ PROPS.update({
     "C09": _p([r"^c02_[qt]_(s1|s2|s3|e0|e1|e2|n1|g\d+)_"], ["C09:"], gen=True, bounds=STD_BOUNDS + " " + CAT),
     "C10": _p([r"^c02_[qt]_(e0|e1|e2|e3)_"], ["C10:"], bounds=STD_BOUNDS + " " + CAT),
     "C11": _p([r"^c02_[qt]_(s4|s5|s6|c1|c2)_"], ["C11:"], bounds=STD_BOUNDS + " User-function outcomes (try_from / validate fail or succeed) symbolic. " + CAT),
-    "C12": _p([r"^c12_", r"^c01_", r"^c05_q_(char|string)"], [], panics=True, bounds=STD_BOUNDS + " Every reachable panic!, unwrap, index, arithmetic-overflow and pointer check of the compiled code is a proof obligation. " + CAT),
+    "C12": _p([r"^c12_", r"^c01_", r"^c05_q_(char|string)", r"^c13_q_view_"], [], panics=True, bounds=STD_BOUNDS + " Every reachable panic!, unwrap, index, arithmetic-overflow and pointer check of the compiled code is a proof obligation. " + CAT),
 })
 PROPS["C05"]["tags"] = ["C05:"]
 PROPS["C19"]["tags"] = ["C19:"]
